@@ -66,6 +66,10 @@ CHECKS = {
  "C12": ("opspace", "bounded-exhaustive enumeration of function x operand x precision x range x mode on the real code against a high-precision real reference with explicit error bound and undecided handling",
          "Exp/Ln/Log10/Pow on dense and sparse operand families (operands longer than Precision, arguments 10^k(1+-10^-j), the 23*p thresholds), precisions 1..9 plus 16/34/60 and one operand per level of the ln10/1/ln10 constant tables; |result - true| <= 1 ulp decided with a reference whose precision is doubled until the question is decided; exact-by-definition cases exactly; overflow/underflow reports checked against the true magnitude.",
          "The reference's error bound is conservative but not machine-checked; two known findings are matched by input predicates.", "4/C12"),
+
+ "C18": ("sched", "stateless model checking: cooperative scheduler + depth-first search over all schedules within a preemption bound at statement-level scheduling points of an instrumented overlay of the real code; separate free-running race-detector pass",
+         "14 scenarios of 2-3 goroutines x 1-2 calls sharing one Context, the same inline/heap operands and the package tables (tableExp10 above 128, ln10 tables, WithPrecision, Modf/upscale temporaries, readers vs arithmetic); every schedule with <= 1-2 preemptions is executed; each thread must return its solo result and the deep snapshot of operands, Context and all 26 package-level variables must be unchanged; schedules that fail are replayed twice (determinism) and written as replayable choice lists; plus 300/2000 free-running repetitions under -race.",
+         "Statement-level sequential consistency; composite calls are preempted at every site but only at its first 2 (4) dynamic occurrences per thread (reported as a cap, exhaustive=false); T<=3.", "4/C18"),
 }
 
 NOT_YET = {}
